@@ -21,10 +21,18 @@ RULE = ("sessions against a real nsqlookupd SUBPROCESS (binary built from the re
         "bytes short, size shorter than the JSON, missing size bytes, 12 kinds of malformed JSON, 8 kinds of missing fields; optionally followed by further "
         "commands that must be ignored and by a last line without newline. HTTP: 27 paths (all routes but the 30 s CPU profile, unknown paths, trailing-slash "
         "and case variants) x 7 methods x topic in {absent, empty, bystander's, new, invalid, wildcard, 65 bytes, ephemeral} x channel (7 values) x node (4 values), "
-        "unparsable queries (quick: sampled, biased to POST on the admin routes; thorough: the systematic matrix of 1700 requests). After EVERY action: /ping "
-        "liveness + process state, the raw frames / status code, /lookup of the bystander's topic, /topics, /channels?topic=*, /debug (the views after a "
+        "unparsable queries (quick: sampled, biased to POST on the admin routes and, in 45% of those, to topics / channels / nodes that ARE registered at that "
+        "point by the bystander, the visitor or a hostile connection; thorough: the systematic matrix of 1700 requests), plus three fixed sessions with the matrix "
+        "(five admin requests) x (topic registered by both connections / by the visitor / key created over HTTP without producers / absent) x (channel registered / "
+        "shared #ephemeral / key without producers / absent) x (node of the bystander / of the visitor / foreign / empty / wrong port / wrong case), the connections "
+        "registering again after every deletion. After EVERY action: /ping "
+        "liveness + process state, the raw frames / status code, /lookup of the bystander's topic, /topics, /channels?topic=*, /debug with the "
+        "broadcast_address:http_port of every entry (the views after a "
         "visitor command are taken while that connection is still open). Monitor: a hostile connection that has come and gone leaves EVERY producer entry of "
-        "/debug and the /lookup producers exactly as they were; a well-behaved command changes nothing that is not its own connection's. "
+        "/debug and the /lookup producers exactly as they were; a well-behaved command changes nothing that is not its own connection's; an HTTP request that is "
+        "not answered 200 or is not a POST on one of the five admin routes changes no view at all; create (whatever it names) leaves every producer entry, "
+        "tombstone flag, node and /lookup producer as it was and adds at most the named keys; delete removes entries of the named topic / channel key only and "
+        "adds or alters nothing; tombstone removes nothing and turns flags on only for the named topic and only for connections whose node string is the named one. "
         "Every case is non-trivial; distinct = distinct terms.")
 TRUSTED = [
     "modelled, not verified: bufio.Reader.ReadString / io.ReadFull / binary.Read (as: a line up to '\\n' or EOF; exactly n bytes or an error), "
@@ -45,7 +53,10 @@ LEVEL_TEXT = ("Machine-checked proof (Coq 8.16.1) over a byte-level executable m
               "never panics (and the same model without the size refusal does, on the 13-byte witness); every malformed command is answered E_INVALID / E_BAD_TOPIC / "
               "E_BAD_CHANNEL / E_BAD_BODY as specified and refused (nothing registered, connection closed, the error is the last frame); whatever arrives on connection p "
               "is a sequence of p's own operations, so every other connection's registrations, tombstone marks, last_update and /lookup listing are unchanged; an HTTP "
-              "request not answered 200 changes nothing and only POST on the five admin routes can change the registry. The dispatch table, route table, handler "
+              "request not answered 200 changes nothing and only POST on the five admin routes can change the registry; a create request leaves /debug, every node, "
+              "registration, tombstone mark and /lookup listing as it was and removes no key (also when the named key exists and has producers), a delete request adds "
+              "and alters nothing and touches only keys of the named topic / the named channel key, a tombstone request keeps every key and entry and marks only "
+              "producers of the named topic whose broadcast_address:http_port is the named node. The dispatch table, route table, handler "
               "guard/call summaries (incl. the position of the size refusal before make), the writes of peerInfo in IDENTIFY (the id comes from the socket, before json.Unmarshal, "
               "and is never written again) and the identity argument of every registry call of the handlers are regenerated from the source on every run and proved equal to the model's. "
               "Tied to the code by differential correspondence on a real nsqlookupd subprocess with a bystander producer.")
